@@ -24,7 +24,7 @@ RULE = ("case = program tree over main file (+ optional second source) + include
         "wrong operand count, comment lines that swallow the next line by a trailing backslash, statements / "
         "headers / ENDM / calls / INCLUDE split by 1-3 backslash continuations, long lines, CRLF and missing final "
         "newline; faults: unknown mnemonic #1200, operand count #1110, range overflow #1320, numbered warnings #30 "
-        "#50, user ERROR / WARNING, and (in otherwise clean programs) undefined symbol #1010; 5 targets; options "
+        "#50, ENDEXPECT without EXPECT #2160, user ERROR / WARNING, and (in otherwise clean programs) undefined symbol #1010; 5 targets; options "
         "-x 0..2, -n, -gnuerrors, -E default|!1|!2|file|bare, -q, -L, -w, -Werror, sources given with a directory.  non-trivial = some reported or suppressed "
         "fault lies inside >= 1 construct or include file, or an EXPECT announces a number that does not occur; "
         "distinct by (set of (nesting shape, fault class) of the diagnostics, format, -x, -n)")
@@ -79,7 +79,7 @@ ARG_OK = ["1", "17", "127"]
 ARG_BAD = ["300", "999"]
 CHR_OK = "012345"
 CHR_BAD = "6789"
-NUM = {"unk": 1200, "argc": 1110, "range": 1320, "undef": 1010}
+NUM = {"unk": 1200, "argc": 1110, "range": 1320, "undef": 1010, "noexp": 2160}
 SURPLUS = [1010, 1350, 1445, 10, 1820, 1815]
 NUMBERED = (1200, 1110, 1320, 30, 50)
 BADHDR = {"rept": "rept", "rept2": "rept 1,2", "irp": "irp PX", "irpc": "irpc PX", "while": "while"}
@@ -164,7 +164,7 @@ def bound_items(items, g):
 def has_expect(items, g):
     for it in items:
         k = it["k"]
-        if k == "expect":
+        if k == "expect" or (k == "ln" and it["c"] == "noexp"):
             return True
         if k == "inc" and g.files[it["f"]]["has_expect"]:
             return True
@@ -207,6 +207,8 @@ class Gen:
             else:
                 it = dict(k="ln", c=d.weighted([(3, "unk"), (3, "argc"), (3, "range"), (2, "warn"), (1, "uerr"),
                                                 (1, "uwarn")]), v=d.int(0, 2))
+                if not cx["in_expect"] and d.weighted([(11, False), (1, True)]):
+                    it["c"] = "noexp"      # ENDEXPECT without EXPECT
                 if it["c"] == "uwarn" and self.W == "w":
                     it["c"] = "uerr"       # whether -w also silences the WARNING statement is not documented
         else:
@@ -216,7 +218,7 @@ class Gen:
                 it["len"] = d.choice([126, 127, 128, 129, 200, 240, 250])
             if c == "good" and cx["once"] and cx["src"] == "file" and d.bool(0.15):
                 it["lab"] = self.nid()
-        if it["c"] in ("good", "unk", "argc", "range", "warn", "undef"):
+        if it["c"] in ("good", "unk", "argc", "range", "warn", "undef", "noexp"):
             if d.bool(0.1):
                 it["pad"] = d.choice([3, 40, 126, 127, 128, 200, 249])     # total length reached by a trailing comment
             if d.bool(0.1):
@@ -468,7 +470,8 @@ class Gen:
         if d.bool(0.2):
             # multiplicity form: one repetition of static statements, announced exactly as often as they occur
             n = d.int(2, 3)
-            body = [self.stmt(dict(cx, cont_ok=False, once=False), force_fault=(i == 0)) for i in range(d.int(1, 2))]
+            body = [self.stmt(dict(cx, cont_ok=False, once=False, in_expect=True), force_fault=(i == 0))
+                    for i in range(d.int(1, 2))]
             body = [b for b in body if b["c"] not in ("uerr", "uwarn")] or [dict(k="ln", c="unk", v=0)]
             occ = Counter(num_of(b, self.cpu) for b in body if num_of(b, self.cpu) is not None)
             nums = []
@@ -569,6 +572,8 @@ def stmt_text(it, t, cpu, ind="\t"):
         s = warn_of(cpu, it["v"])[0]
     elif c == "undef":
         s = t["undef"] % ("undef%d" % it["s"])
+    elif c == "noexp":
+        s = "endexpect"
     elif c == "uerr":
         s = 'error "e"'
     elif c == "uwarn":
